@@ -13,6 +13,12 @@
 #include <string_view>
 #include <ostream>
 
+#ifdef CTPG_VERIF
+// Verification hook (guard: CTPG_VERIF): the harness supplies ctpg_verif::bounds_violation.
+namespace ctpg_verif { void bounds_violation(const char* what, std::size_t idx, std::size_t cap); }
+#define CTPG_VERIF_BOUNDS(cond, what, idx, cap) do { if (!(cond)) ::ctpg_verif::bounds_violation(what, std::size_t(idx), std::size_t(cap)); } while (0)
+#endif
+
 namespace ctpg
 {
 
@@ -155,6 +161,16 @@ namespace stdex
         constexpr size_type size() const { return current_size; }
         constexpr bool empty() const { return current_size == 0; }
         constexpr void reserve(size_type) const {};
+#ifdef CTPG_VERIF
+        constexpr const T& operator[](size_type idx) const { CTPG_VERIF_BOUNDS(idx < N, "cvector::operator[]", idx, N); return the_data[idx]; }
+        constexpr T& operator[](size_type idx) { CTPG_VERIF_BOUNDS(idx < N, "cvector::operator[]", idx, N); return the_data[idx]; }
+        constexpr void push_back(const T& v) { CTPG_VERIF_BOUNDS(current_size < N, "cvector::push_back", current_size, N); the_data[current_size++] = v; }
+        constexpr void emplace_back(T&& v) { CTPG_VERIF_BOUNDS(current_size < N, "cvector::emplace_back", current_size, N); the_data[current_size++] = std::move(v); }
+        constexpr const T& front() const { return the_data[0]; }
+        constexpr T& front() { return the_data[0]; }
+        constexpr T& back() { CTPG_VERIF_BOUNDS(current_size > 0, "cvector::back", current_size, N); return the_data[current_size - 1]; }
+        constexpr const T& back() const { CTPG_VERIF_BOUNDS(current_size > 0, "cvector::back", current_size, N); return the_data[current_size - 1]; }
+#else
         constexpr const T& operator[](size_type idx) const { return the_data[idx]; }
         constexpr T& operator[](size_type idx) { return the_data[idx]; }
         constexpr void push_back(const T& v) { the_data[current_size++] = v; }
@@ -163,14 +179,22 @@ namespace stdex
         constexpr T& front() { return the_data[0]; }
         constexpr T& back() { return the_data[current_size - 1]; }
         constexpr const T& back() const { return the_data[current_size - 1]; }
+#endif
         constexpr const_iterator begin() const { return const_iterator(the_data); }
         constexpr const_iterator end() const { return const_iterator(the_data + current_size); }
         constexpr iterator begin() { return iterator(the_data); }
         constexpr iterator end() { return iterator(the_data + current_size); }
         constexpr void clear() { current_size = 0; }
+#ifdef CTPG_VERIF
+        constexpr void pop_back() { CTPG_VERIF_BOUNDS(current_size > 0, "cvector::pop_back", current_size, N); current_size--; }
+#else
         constexpr void pop_back() { current_size--; }
+#endif
         constexpr iterator erase(iterator first, iterator last)
         {
+#ifdef CTPG_VERIF
+            CTPG_VERIF_BOUNDS(!(first.ptr < the_data) && !(last.ptr > the_data + current_size), "cvector::erase", size_type(last.ptr - first.ptr), current_size);
+#endif
             if (!(first < last))
                 return end();
             auto from = first < begin() ? begin() : first;
